@@ -43,7 +43,10 @@ elif cmd == 'confirm':
         r1 = subprocess.run(['/venv/bin/python', demo], cwd=wt, env=env, capture_output=True, text=True)
         t = subprocess.run(['/venv/bin/python', '-m', 'pytest', '-q', '-p', 'no:cacheprovider'], cwd=wt, env=env, capture_output=True, text=True)
         tail = t.stdout.strip().splitlines()[-1] if t.stdout.strip() else ''
-        same = r0.returncode == 0 and r1.returncode == 0 and r0.stdout == r1.stdout and r0.stdout.strip() != ''
+        def dig(t):
+            ls = [l for l in t.splitlines() if 'digest' in l.lower()]
+            return ls if ls else t
+        same = r0.returncode == 0 and r1.returncode == 0 and dig(r0.stdout) == dig(r1.stdout) and r0.stdout.strip() != ''
         ok = same and '234 passed' in tail and 'failed' not in tail
         print('%s: demo same=%s suite="%s" -> %s' % (label, same, tail, 'CONFIRMED' if ok else 'NOT CONFIRMED'))
         sys.exit(0 if ok else 1)
